@@ -120,7 +120,22 @@ ShapeEdit(e) ==
               nw == [old EXCEPT !.nv = old.nv + Len(e.values),
                                 !.vertices = old.vertices \o [k \in 1..Len(e.values) |-> e.values[k].vertex]]
               g2 == [geom[e.h] EXCEPT ![e.lod + 1][e.part + 1] = nw]
-          IN Written(e, g2, Sig(e)) /\ geom' = [geom EXCEPT ![e.h] = g2]
+          IN /\ Written(e, g2, Sig(e)) /\ geom' = [geom EXCEPT ![e.h] = g2]
+             \* the shape now has values on this mesh: its name is reported for the part, by the library and by the
+             \* specification's reading of the written bytes
+             /\ IF IsSome(e.res.written) /\ IsSome(e.res.reparsed) /\ Len(e.values) > 0
+                THEN LET W == e.res.written.v.v
+                         L == Layout(W)
+                         o == e.res.reparsed.v.v
+                         has(names) == \E k \in 1..Len(names) : names[k] = e.shape_name
+                     IN /\ Require(l, "mdl-shape-reported", Sig(e) \o <<e.lod + 1, e.part + 1>>,
+                                   e.lod + 1 <= Len(o.lods) /\ e.part + 1 <= Len(o.lods[e.lod + 1].parts)
+                                     /\ has(o.lods[e.lod + 1].parts[e.part + 1].shapes))
+                        /\ IF Len(W) = e.res.written.v.len
+                           THEN Require(l, "mdl-shape-written", Sig(e) \o <<e.lod + 1, e.part + 1>>,
+                                        has(ShapeNames(W, L, e.lod + 1, MeshRec(W, L, LodRec(W, L, e.lod + 1).mesh_index + e.part))))
+                           ELSE TRUE
+                ELSE TRUE
   /\ UNCHANGED orig
 
 Init == l = 1 /\ geom = <<>> /\ orig = <<>>
